@@ -1,5 +1,5 @@
 # replay of a bounded stand-in violation (C09/C10): re-run native/c09_engine.py
 import sys
-print('C10: re(q) of a measured parameter with outcome (0.3+0.4j) evaluates to (0.3+0.4j), the function of the outcome is (0.3+0j)')
+print("C10: creating the free parameter 'a' in a second program reset/aliased the bound parameter 'a' of the first program")
 print('REPLAY-VIOLATION')
 sys.exit(1)
